@@ -76,10 +76,22 @@ def same_base_leaves(r, doc):
     return Leaf("value", None, r.choice(["required_keys", "keys_contain_any_of"]), args=(variant(), variant()))
 
 
-def gen_leaf_with_paths(r, doc, jsonable=False):
+def gen_leaf_with_paths(r, doc, jsonable=False, allow_range=False):
     _rp = ref_path
     def ref_path_(r_, d_):
         return _rp(r_, d_, jsonable)
+    if allow_range and r.pct() < 8:
+        # in_range / not_in_range with a bound looked up in the document - only a bound that the reference resolves, in
+        # THIS document, to a small integer (the library walks range(lo, hi) for a non-integer item); the callable is
+        # type-sensitive: an equal-valued float bound makes the comparison undefined
+        small = [(v, pth) for v, pth in all_nodes(doc) if isinstance(v, int) and not isinstance(v, bool) and abs(v) <= 40
+                 and all(isinstance(k, (str, int)) and not isinstance(k, bool) for k in pth)]
+        if small:
+            v, pth = r.choice(small)
+            bound = PathT([Prim(k) for k in pth])
+            other = v + r.between(1, 6)
+            kw = {"lower": bound, "upper": other} if r.coin() else {"lower": v - r.between(1, 6), "upper": bound}
+            return Leaf("value", None, r.choice(["in_range", "not_in_range"]), kwargs=kw)
     c = r.pct()
     if c < 50:
         name = r.choice(SINGLE)
@@ -168,7 +180,7 @@ def gen_case(r):
         tested = model.ref_select(p.parts, d) if p.parts else []
         leaf = related_leaf(r, d, tested)
     if leaf is None:
-        leaf = same_base_leaves(r, d) if r.pct() < 22 else gen_leaf_with_paths(r, d)
+        leaf = same_base_leaves(r, d) if r.pct() < 22 else gen_leaf_with_paths(r, d, allow_range=True)
     t = leaf
     if r.coin(35):
         o = G.tree(r, ("value",), "typed", 1, meaningful=True) if r.coin() else gen_leaf_with_paths(r, d)
@@ -238,7 +250,47 @@ def body(case):
     b = (rt_lit.is_valid, [exact(tuple(f.path)) for f in rt_lit.failures])
     if a != b:
         out.add("path-equals-literal", "path-equals-literal", f"with paths {a!r}, with resolved literals {b!r}")
+    # the same rule object then judges the document's type-twin (every 1 a 1.0, every True a 1 ...: equal by ==, not
+    # the same document): the path arguments are looked up in the document being validated
+    if not out.violations:
+        doc2 = twin_doc(doc)
+        if exact(doc2) != exact(doc):
+            try:
+                ref2 = model.ref_rule_test(rule, doc2)
+            except Exception:
+                ref2 = None
+            und2 = [False]
+            res2_ = model.make_resolver(doc2)
+            for l in leaves(rule.cond):
+                for a_ in list(l.args) + list(l.kwargs.values()):
+                    if isinstance(a_, PathT):
+                        try:
+                            res2_(a_)
+                        except Exception:
+                            und2[0] = True
+            if ref2 is not None and not und2[0]:
+                out.label("type-twin-document-next")
+                try:
+                    rt2 = R.test(ns.da.Data(doc2) if wrap else doc2)
+                except Exception as e:
+                    out.exc("test-raised|twin-document", e)
+                    return out
+                check_rule_test(out, rt2, ref2, doc2, prefix="twin-document-")
     return out
+
+
+def twin_doc(x):
+    if isinstance(x, dict):
+        return {k: twin_doc(v) for k, v in x.items()}
+    if isinstance(x, list):
+        return [twin_doc(v) for v in x]
+    if isinstance(x, bool):
+        return int(x)
+    if isinstance(x, int) and -2**53 < x < 2**53:
+        return float(x)
+    if isinstance(x, float) and x.is_integer() and abs(x) < 2**53:
+        return int(x)
+    return x
 
 
 # ------------------------------------------------------------------ escaped literals
